@@ -28,3 +28,54 @@ Theorem C01_qtm_bufsize_independent : forall bufsize wbits n hint inp, 0 < bufsi
   r1 = r2 /\ iout i' = out h'.
 Proof. intros. apply decoder_bufsize_independent. assumption. Qed.
 Print Assumptions C01_qtm_bufsize_independent.
+
+(* ---- the container: Model/Cab.v, the executable model of cabd_open / cabd_extract for one cabinet (run against the C library
+   on intact and damaged cabinets by tools/props/C01.py) ---- *)
+From Coq Require Import ZArith.
+From MSP Require Import Gen.Consts Model.Cab Proofs.Sim Proofs.CabP Props.CabSample.
+
+(* cabd_sys_read on a folder whose data area holds well-formed CFDATA blocks (checksum absent or right, sizes within limits,
+   per-block reserve skipped): every call delivers the next bytes of the concatenated payloads (plus Quantum's trailer byte),
+   for every request size, and leaves the reader at the right block *)
+Theorem C01_block_reader_is_a_stream : forall par bres comp nblocks file fuel todo acc h pre bs post,
+  at_blocks bres nblocks file h pre bs post ->
+  (todo = 0 /\ (1 <= fuel)%nat) \/ (2 * length bs + (match h_ibuf h with [] => 0 | _ => 1 end) + 1 <= fuel)%nat ->
+  exists h' pre' bs', sys_read file par bres comp nblocks fuel todo acc h = (RBytes (acc ++ firstn (N.to_nat todo) (h_ibuf h ++ pays comp bs)), h') /\
+     at_blocks bres nblocks file h' pre' bs' post /\ h_ibuf h' ++ pays comp bs' = skipn (N.to_nat todo) (h_ibuf h ++ pays comp bs) /\ same_sink comp h h'.
+Proof. exact sys_read_stream. Qed.
+Print Assumptions C01_block_reader_is_a_stream.
+
+(* hence any decoder program run through the buffered interpreter behind the CAB block reader (MSZIP, Quantum, uncompressed:
+   every folder type whose output-length hint is constant) returns what it returns on the ideal stream of concatenated
+   payloads - same status, same bytes written - for every input buffer size *)
+Theorem C01_decoder_behind_block_reader_is_ideal : forall par bres comp nblocks file, ctype comp <> cffoldCOMPTYPE_LZX ->
+  forall A (p : sprog A) bufsize rule w o0 off0 hint post i b h hs, 0 < bufsize ->
+  Q bres comp nblocks file w o0 off0 hint post h hs -> R rule i b hs ->
+  let '((r2, _), h') := Cab.cexec file par bres comp nblocks h (buffered bufsize rule p b) in
+  let '(r1, i') := ideal rule hint p i in
+  r1 = r2 /\ exists hs', Q bres comp nblocks file w o0 off0 hint post h' hs' /\ iout i' = out hs'.
+Proof. intros par bres comp nblocks file Hn A p. exact (cab_buffered_ideal par bres comp nblocks file Hn p). Qed.
+Print Assumptions C01_decoder_behind_block_reader_is_ideal.
+
+(* extract() of any member of an uncompressed folder, from a fresh decompressor, with any DECOMPBUF: exactly the member's bytes *)
+Theorem C01_stored_member_exact : forall file par cab, 0 < p_bufsize par -> forall fo f pre bs post,
+  nth_error (c_folders cab) (N.to_nat (fi_folder f)) = Some fo -> ctype (fo_comp fo) = cffoldCOMPTYPE_NONE -> prechecks par fo f = true ->
+  file = pre ++ encs bs ++ post -> fo_offset fo = Z.of_N (Chm.len pre) -> N.of_nat (length bs) = fo_nblocks fo -> Forall (wf_blk (c_bres cab)) bs ->
+  fi_off f + fi_len f <= Chm.len (pays (fo_comp fo) bs) ->
+  exists st', extract file par cab cs_init f =
+              (MSPACK_ERR_OK, firstn (N.to_nat (fi_len f)) (skipn (N.to_nat (fi_off f)) (pays (fo_comp fo) bs)), st').
+Proof. exact stored_extract. Qed.
+Print Assumptions C01_stored_member_exact.
+
+(* non-vacuity: a cabinet built by the generator the checks use opens in the model and its uncompressed folder meets the hypotheses *)
+Example C01_sample_cabinet : exists cab fo f, cab_open sample_cab false = (MSPACK_ERR_OK, Some cab) /\
+  nth_error (c_files cab) 1 = Some f /\ nth_error (c_folders cab) (N.to_nat (fi_folder f)) = Some fo /\
+  ctype (fo_comp fo) = cffoldCOMPTYPE_NONE /\ prechecks (mkPar false false 4096) fo f = true /\
+  sample_cab = firstn (N.to_nat sample_dataoff) sample_cab ++ encs sample_blocks ++ sample_post /\
+  fo_offset fo = Z.of_N (Chm.len (firstn (N.to_nat sample_dataoff) sample_cab)) /\ N.of_nat (length sample_blocks) = fo_nblocks fo /\
+  Forall (wf_blk (c_bres cab)) sample_blocks /\ fi_off f + fi_len f <= Chm.len (pays (fo_comp fo) sample_blocks).
+Proof.
+  eexists. eexists. eexists. split; [vm_compute; reflexivity|]. split; [reflexivity|]. split; [reflexivity|].
+  repeat split; try (vm_compute; reflexivity); try (vm_compute; discriminate).
+  constructor; [|constructor]. unfold wf_blk. repeat split; try (vm_compute; reflexivity); try (vm_compute; discriminate). right. vm_compute. reflexivity.
+Qed.
